@@ -321,12 +321,15 @@ type newTorrentEvent struct {
 // apply begins seeding / leeching a new torrent.
 func (e newTorrentEvent) apply(s *state) {
 	ctrl, ok := s.torrentControls[e.torrent.InfoHash()]
+	var waiting []chan error
 	if ok && ctrl.dispatcher.Complete() && !e.torrent.Complete() {
 		// The scheduler considers the torrent complete, while it is
 		// actually not on disk. This happens when the disk cache
 		// asynchronously evicts the torrent, leaving the scheduler
 		// incorrectly thinking the torrent is still on disk.
-		// We fix this by removing the mem entry for the torrent.
+		// We fix this by removing the mem entry for the torrent. Clients still
+		// waiting for the old entry's completion event wait for the new one.
+		waiting, ctrl.errors = ctrl.errors, nil
 		s.removeTorrent(e.torrent.InfoHash(), nil)
 		ok = false
 	}
@@ -334,9 +337,13 @@ func (e newTorrentEvent) apply(s *state) {
 		var err error
 		ctrl, err = s.addTorrent(e.namespace, e.torrent, true)
 		if err != nil {
+			for _, errc := range waiting {
+				errc <- err
+			}
 			e.errc <- err
 			return
 		}
+		ctrl.errors = append(ctrl.errors, waiting...)
 		s.log("torrent", e.torrent).Info("Added new torrent")
 	}
 	if ctrl.dispatcher.Complete() {
@@ -358,9 +365,16 @@ type dispatcherCompleteEvent struct {
 func (e dispatcherCompleteEvent) apply(s *state) {
 	infoHash := e.dispatcher.InfoHash()
 
+	ctrl, ok := s.torrentControls[infoHash]
+	if ok && ctrl.dispatcher != e.dispatcher {
+		// Stale notice: the completed dispatcher's torrent was removed and the
+		// torrent has been requested again since. The new dispatcher is not
+		// complete, so neither its clients nor its announce state may be touched.
+		s.log("dispatcher", e.dispatcher).Info("Ignoring completion of replaced dispatcher")
+		return
+	}
 	s.conns.ClearBlacklist(infoHash)
 	s.announceQueue.Eject(infoHash)
-	ctrl, ok := s.torrentControls[infoHash]
 	if !ok {
 		s.log("dispatcher", e.dispatcher).Error("Completed dispatcher not found")
 		return
@@ -368,6 +382,9 @@ func (e dispatcherCompleteEvent) apply(s *state) {
 	for _, errc := range ctrl.errors {
 		errc <- nil
 	}
+	// Each client is notified exactly once: a later removal or shutdown must not
+	// send to these (no longer read) channels again.
+	ctrl.errors = nil
 	if ctrl.localRequest {
 		downloadTime := s.sched.clock.Now().Sub(ctrl.dispatcher.CreatedAt())
 		observability.EmitDownloadPerformance(s.sched.stats, observability.TORRENT_LEECH, ctrl.dispatcher.Length(), downloadTime)
